@@ -20,12 +20,13 @@
 EXTENDS Integers, Sequences, FiniteSets, TLC
 
 CONSTANTS NKeys, PageSize, LeafElem, BranchElem,
-          Pinned      \* subset of {"F1", "F6", "F13"}: repairs switched OFF (the pinned code; vacuity guards)
+          Pinned      \* subset of {"F1", "F2", "F6", "F13", "F14"}: repairs switched OFF (the pinned code; vacuity guards)
 
 HEADER == 40                          \* size_of::<Page>() (the ptr field included)
 MINKEYS == 2
 Threshold == PageSize \div 2          \* ((pagesize as f32) * FILL_PERCENT) as u64
 Keys == 1..NKeys
+Depth0 == NKeys + 3
 
 Max(a, b) == IF a > b THEN a ELSE b
 Range(f) == {f[i] : i \in DOMAIN f}
@@ -170,6 +171,46 @@ Scan(s) ==
         first == IF Len(st0) > 1 /\ AtEmptyLeaf(s, st0)
                  THEN Advance(s, st0) ELSE <<st0, FALSE>>
     IN  IF first[2] THEN <<>> ELSE ScanFrom(s, first[1], <<>>, 4 * NKeys + 8)
+
+(* ---- cursor: seek ------------------------------------------------------- *)
+\* Cursor::step_back: to the last entry of the nearest leaf to the left that still holds one; <<stack, found>>
+RECURSIVE StepBack(_, _)
+StepBack(s, stack) ==
+    LET top == stack[Len(stack)]
+    IN  IF top[2] <= 1
+        THEN IF Len(stack) > 1 THEN StepBack(s, SubSeq(stack, 1, Len(stack) - 1)) ELSE <<stack, FALSE>>
+        ELSE LET st1 == [stack EXCEPT ![Len(stack)] = <<top[1], top[2] - 1>>]
+                 \* descend along the right-most path
+                 Down[n \in 0..Depth0] ==
+                     IF n = 0 THEN st1
+                     ELSE LET st == Down[n - 1]
+                              e == st[Len(st)]
+                              pn == PageNode(s, e[1])
+                          IN  IF pn.leaf \/ Len(pn.keys) = 0 THEN st
+                              ELSE LET child == pn.kids[e[2]]
+                                   IN  Append(st, <<child, Max(Len(PageNode(s, child).keys), 1)>>)
+                 st2 == Down[Depth0]
+                 e2 == st2[Len(st2)]
+                 pn2 == PageNode(s, e2[1])
+             IN  IF pn2.leaf /\ Len(pn2.keys) > 0 THEN <<st2, TRUE>>
+                 ELSE StepBack(s, [st2 EXCEPT ![Len(st2)] = <<e2[1], 1>>])
+
+\* Cursor::seek: [exact, stack, done] (done: the cursor is exhausted)
+Seek(s, k) ==
+    LET r == Search(s, k)
+        st == r.path
+    IN  IF ~r.exact /\ Len(st) > 1 /\ Current(r.s, st) = 0 /\ "F2" \notin Pinned
+        THEN LET a == Advance(r.s, st)
+             IN  IF ~a[2] THEN [exact |-> FALSE, stack |-> a[1], done |-> FALSE]
+                 ELSE IF "F14" \in Pinned THEN [exact |-> FALSE, stack |-> a[1], done |-> TRUE]
+                 ELSE LET b == StepBack(r.s, st)
+                      IN  [exact |-> FALSE, stack |-> b[1], done |-> ~b[2]]
+        ELSE [exact |-> r.exact, stack |-> st, done |-> FALSE]
+
+\* what iterating from a seek yields: the current entry, then every next()
+SeekList(s, k) ==
+    LET r == Seek(s, k)
+    IN  IF r.done THEN <<>> ELSE ScanFrom(s, r.stack, <<>>, 4 * NKeys + 8)
 
 (* ---- commit: rebalance -------------------------------------------------- *)
 FreePage(s, id) ==
